@@ -7,6 +7,8 @@ Record case := mkcase {
   c_schema : schema;          (* annotations and (effective) definition defaults *)
   c_inst : inst;              (* the instance that was saved *)
   c_suffix : string;          (* ".json" | ".yaml" | ".yml" | ".pkl" *)
+  c_via : route;              (* constructor config_path= | --config_path on the command line *)
+  c_api : api;                (* parse(cls, ...) with the un-rooted file | ArgumentParser + add_arguments(cls, "cfg") with the file keyed by "cfg" *)
   c_obs : res inst;           (* the instance the parse returned, or how save / parse ended *)
   c_step2 : option (inst * res inst)   (* two-step cases: a second instance saved to the SAME path afterwards and parsed again in the
                                           same process, with what that parse returned; each step is judged on its own *)
@@ -20,11 +22,9 @@ Definition in_scope (c : case) : bool :=
   in_quantifier c.(c_schema) c.(c_inst) && str_in c.(c_suffix) four_suffixes
   && step2_all (fun y _ => in_quantifier c.(c_schema) y) c.
 
-(* the route (constructor config_path= / --config_path, parse() un-rooted / ArgumentParser dest-keyed) is not part of the case:
-   the model gives one answer for all of them, and the rooted and un-rooted models must agree *)
+(* the model is run along the case's own route (regenerated wiring of parse_known_args / set_defaults / parse) *)
 Definition model_step (c : case) (x : inst) (o : res inst) : bool :=
-  res_eqb inst_eqb (config_loop_gen c.(c_suffix) c.(c_schema) x) o
-  && res_eqb inst_eqb (config_loop_rooted_gen "cfg" c.(c_suffix) c.(c_schema) x) o.
+  res_eqb inst_eqb (config_run_gen c.(c_via) c.(c_api) "cfg" c.(c_suffix) c.(c_schema) x) o.
 
 Definition model_ok (c : case) : bool := model_step c c.(c_inst) c.(c_obs) && step2_all (model_step c) c.
 
